@@ -641,24 +641,71 @@ def rule_existence_gate(ctx: Ctx, rule: str) -> None:
                    'reaching definitions are only lexists / lstat outcomes on the root-joined (or absolute) name')
     repo = ctx.repo
     mm = repo.func('_wcmatch', '_Match.match')
-    q = fq(mm)
-    calls = q.calls(lambda s: s == 'self._match_real')
-    ok = len(calls) == 1 and q.guarded(calls[0], 'exists', 'T') and q.guarded(calls[0], 'self.real', 'T')
-    ctx.ob(rule, '_wcmatch:_Match.match/match_real-under-exists', ok, repo.loc('_wcmatch', calls[0] if calls else mm.node),
-           'self._match_real(...) only under self.real ∧ exists', str(ok), witness="globmatch('nope', '*', REALPATH) must be False")
-    defs = [s for s in walk_no_nested(mm.node) if isinstance(s, ast.Assign) and norm_src(s.targets[0]) == 'exists']
-    vals = sorted(norm_src(s.value) for s in defs)
-    want = sorted(['os.path.lexists(self.filename)', 'os.path.lexists(os.path.join(root, self.filename))', 'False', 'True'])
-    ctx.ob(rule, '_wcmatch:_Match.match/exists-definitions', vals == want, repo.loc('_wcmatch', mm.node), str(want), str(vals),
-           witness='`exists = True` unconditionally lets REALPATH match names that are not on disk')
-    tr = [s for s in defs if norm_src(s.value) == 'True']
-    okt = all(any(isinstance(t, ast.Try) and s in t.orelse and any(isinstance(x, ast.Call) and norm_src(x.func) == 'os.lstat' for b in t.body for x in ast.walk(b))
-                  for t in walk_no_nested(mm.node)) for s in tr)
-    ctx.ob(rule, '_wcmatch:_Match.match/exists-true-after-lstat', okt and bool(tr), repo.loc('_wcmatch', mm.node), '`exists = True` only in the else of try: os.lstat(...)', str(okt))
-    rets = [r for r in q.stmts(lambda x: isinstance(x, ast.Return)) if q.guarded(r, 'self.real', 'T')]
-    okr = all(norm_src(r.value) in ('False', 'self._match_real(symlinks, root, dir_fd)') for r in rets) and len(rets) == 2
-    ctx.ob(rule, '_wcmatch:_Match.match/real-branch-returns', okr, repo.loc('_wcmatch', mm.node), 'the REALPATH branch returns _match_real(...) or False',
-           str([norm_src(r.value) for r in rets]))
+    from ..symeval import focus, _tag
+    pars = [p for p in mm.params() if p != 'self']
+    if len(pars) != 2:
+        raise AnalysisError('_Match.match: (root_dir, dir_fd) expected')
+    rows = []
+    for pt in (0, 1):
+        ev = SymEval(repo, inline=False, explore_handlers=True, max_paths=5000)
+        rows += ev.tabulate(mm, {pars[0]: Opaque('root_dir'), pars[1]: Opaque('dir_fd')}, Obj(('_wcmatch', '_Match'), {'real': True, 'ptype': pt}))
+    MR = '_wcmatch:_Match._match_real'
+    bad_g, bad_d, bad_l, bad_r = [], [], [], []
+    n = 0
+    for p in rows:
+        focus(p)
+        if p.raised:
+            continue
+        n += 1
+        d = p.decisions
+        ab = [v for k, v in d.items() if k.startswith('RegexConst(') and k.endswith('.match(self.filename) is not None')]
+        lex = [e for e in p.of('call') if e[1] == 'os.path.lexists']
+        lst = [e for e in p.of('call') if e[1] == 'os.lstat']
+        called = [e for e in p.of('call') if e[1] == MR]
+        E = None
+        if lex:
+            arg = _tag(lex[0][2][0]) if lex[0][2] else ''
+            E = d.get(f'os.path.lexists({arg})')
+            if len(ab) != 1:
+                bad_d.append('the name is not tested for being absolute before the existence test')
+            elif ab[0] and arg != 'self.filename':
+                bad_d.append(f'absolute name: lexists({arg[:60]})')
+            elif not ab[0] and not (arg.startswith('os.path.join(') and arg.endswith(', self.filename)')):
+                bad_d.append(f'relative name: lexists({arg[:60]})')
+            if len(lex) != 1 or lst:
+                bad_d.append(f'{len(lex)} lexists / {len(lst)} lstat calls on one path')
+        elif lst:
+            at = p.events.index(lst[0])
+            failed = any(e[0] == 'except' for e in p.events[at:])
+            E = not failed
+            arg = _tag(lst[0][2][0]) if lst[0][2] else ''
+            if not (arg.startswith('os.path.join(') and arg.endswith(', self.filename)')) or {k: _tag(v) for k, v in lst[0][3].items()} != {'dir_fd': 'dir_fd'}:
+                bad_l.append(f'os.lstat({arg[:60]}, {({k: _tag(v) for k, v in lst[0][3].items()})})')
+            if d.get('dir_fd is not None') is not True:
+                bad_l.append('lstat relative to a descriptor although none is given')
+        if E is None and any(e[0] == 'except' for e in p.events) and d.get('dir_fd is not None') is True:
+            E = False  # the lstat failed (the handler was entered before anything else happened)
+        if E is None:
+            bad_g.append('a path through the REALPATH branch that does not establish existence')
+            continue
+        if bool(called) != bool(E):
+            bad_g.append(f'exists={E}: _match_real called {len(called)} time(s)')
+        if called:
+            a_ = called[0][2]
+            if len(a_) != 3 or _tag(a_[0]) not in ('{}', 'dict()') or _tag(p.ret) != f'{MR}(' + ', '.join(_tag(x) for x in a_) + ')':
+                bad_r.append(f'_match_real({[_tag(x)[:30] for x in a_]}) -> returns {_tag(p.ret)[:60]}')
+        elif p.ret is not False:
+            bad_r.append(f'not on disk: returns {_tag(p.ret)[:60]}')
+    if n < 12:
+        raise AnalysisError(f'_Match.match: only {n} rows through the REALPATH branch')
+    site = repo.loc('_wcmatch', mm.node)
+    ctx.ob(rule, '_wcmatch:_Match.match/match_real-under-exists', not bad_g, site, 'self._match_real(...) is called iff the name exists on disk (lexists / lstat did not fail)',
+           f'{n} rows agree' if not bad_g else sorted(set(bad_g))[0], witness="globmatch('nope', '*', REALPATH) must be False")
+    ctx.ob(rule, '_wcmatch:_Match.match/exists-definitions', not bad_d, site, 'absolute name: lexists(name); relative, no descriptor: lexists(join(root, name))',
+           'as expected' if not bad_d else sorted(set(bad_d))[0], witness='`exists = True` unconditionally lets REALPATH match names that are not on disk')
+    ctx.ob(rule, '_wcmatch:_Match.match/exists-true-after-lstat', not bad_l, site, 'with a descriptor: os.lstat(join(root, name), dir_fd=dir_fd) succeeded', 'as expected' if not bad_l else sorted(set(bad_l))[0])
+    ctx.ob(rule, '_wcmatch:_Match.match/real-branch-returns', not bad_r, site, 'the REALPATH branch returns _match_real(<fresh cache>, root, dir_fd) or False',
+           'as expected' if not bad_r else sorted(set(bad_r))[0])
 
 
 # ================================================================================================ C05
